@@ -1,14 +1,25 @@
 """C12 translator: Python source of the listed masked operations -> terms of the mask-dataflow
 language of coq/theories/Model/MaskFlow.v  (Gen/MaskProgC12.v).
 
-Symbolic evaluation of a function body on the branch `mask is not None`: variables map to DSL
-terms, NumPy/SciPy calls are classified by the fixed LOCALITY TABLE below (the trusted interface),
-calls to other functions of the three anchored modules are inlined.  FAIL-CLOSED: every construct
-that is not explicitly recognised raises Unsupported.  Functions outside the recognisers get a
-hand-written term pinned to the sha256 of their normalised AST (docstrings removed): when the
-function changes, the pin no longer matches and translation fails."""
+Symbolic evaluation of a function body with an environment (locals -> DSL terms, tuples of slices,
+hoisted sub-expressions), on the branch where the mask argument is present:
+  * `X is None` / `not X is None` / `X is not None` on an argument are decided (array given / literal None);
+  * `if` on configuration or on array data splits the evaluation, each branch is continued with the REST of
+    the body (so early return == if/else) and the two results are joined by Select(then, cond, else);
+    branches that do not return and agree on every array are merged without splitting;
+  * stores that are never read simply vanish (only the returned term matters);
+  * loops are abstracted: every variable written in the loop becomes an opaque pure function
+    (Glob) of the entry values of every variable read in it;
+  * NumPy/SciPy calls are classified by the LOCALITY TABLE below (the trusted interface), calls to the
+    functions in INLINE are inlined, any call whose arguments are all image-independent is a constant.
+FAIL-CLOSED: every construct that is not explicitly recognised raises Unsupported.  Functions outside the
+reach of the evaluator get a hand-written term (maskflow_hand_c12.py) pinned to the hash of their NORMALISED
+AST (norm_hash: docstrings dropped, locals alpha-renamed, `not a is b` -> `a is not b`, never-read stores
+and `pass` removed)."""
 import ast
+import copy
 import hashlib
+import re
 
 
 class Unsupported(Exception):
@@ -16,23 +27,39 @@ class Unsupported(Exception):
 
 
 # ---------------------------------------------------------------- DSL terms (tuples)
-Img = ("Img",)
-MaskE = ("MaskE",)
-FalseC = ("FalseC",)
+class T(tuple):
+    """term node: a tuple with a cached hash (terms are DAGs with heavy sharing; plain tuple hashing would walk the
+    whole tree at every dictionary lookup)"""
+
+    def __new__(cls, *fields):
+        return tuple.__new__(cls, fields)
+
+    def __hash__(self):
+        h = self.__dict__.get("_h")
+        if h is None:
+            h = self.__dict__["_h"] = tuple.__hash__(self)
+        return h
 
 
-def Const(name): return ("Const", str(name))
-def Pw(f, *es): return ("Pw", f, tuple(es))
-def Loc(r, f, e): return ("Loc", int(r), f, e)
-def Glob(f, *es): return ("Glob", f, tuple(es))
-def Erode(r, m): return ("Erode", int(r), m)
-def ErodeP(r, m): return ("ErodeP", int(r), m)
-def Select(a, m, b): return ("Select", a, m, b)
-def MConv(k, e, m): return ("MConv", k, e, m)
-def Not(m): return ("Not", m)                    # internal: eliminated when used as a selector
-def Gather(x, m): return ("Gather", x, m)        # internal: x[m]; lowered to Glob gather [where(m,x,0), m]
-def Crop(key, x): return ("Crop", key, x)        # internal: x[slices]
-def SetSlice(key, x, y): return ("SetSlice", key, x, y)   # internal: x with x[slices] := y
+Img = T("Img")
+MaskE = T("MaskE")
+FalseC = T("FalseC")
+
+
+def Const(name): return T("Const", str(name))
+def Pw(f, *es): return T("Pw", f, tuple(es))
+def Loc(r, f, e): return T("Loc", int(r), f, e)
+def Glob(f, *es): return T("Glob", f, tuple(es))
+def Erode(r, m): return T("Erode", int(r), m)
+def ErodeP(r, m): return T("ErodeP", int(r), m)
+def Select(a, m, b): return T("Select", a, m, b)
+def MConv(k, e, m): return T("MConv", k, e, m)
+def Not(m): return T("Not", m)                    # internal: eliminated when used as a selector
+def Gather(x, m): return T("Gather", x, m)        # internal: x[m], m boolean; lowered to Glob gather [where(m,x,0), m]
+def Crop(key, x): return T("Crop", key, x)        # internal: x[slices]
+def SetSlice(key, x, y): return T("SetSlice", key, x, y)   # internal: x with x[slices] := y
+def Seq(*ts): return T("Seq", tuple(ts))          # internal: python tuple/list of arrays
+def Slices(key): return T("Slices", key)          # internal: a tuple of slice objects with constant bounds
 
 
 def And(m1, m2):
@@ -41,57 +68,135 @@ def And(m1, m2):
 
 
 def is_const(t):
-    return t[0] in ("Const", "FalseC")
+    return t[0] in ("Const", "FalseC", "Slices")
+
+
+def is_masklike(t):
+    """terms that denote a mask (only their truthiness matters)"""
+    k = t[0]
+    if k == "MaskE":
+        return True
+    if k in ("Erode", "ErodeP", "Not"):
+        return is_masklike(t[-1])
+    if k == "Select" and t[3] == FalseC:
+        return is_masklike(t[1]) or is_masklike(t[2])
+    return False
+
+
+CMP = {"lt", "gt", "lte", "gte", "eq", "noteq", "lte", "gte"}
+
+
+def is_boolish(t):
+    """terms known to be boolean arrays (so that x[t] is boolean-mask indexing, not integer fancy indexing)"""
+    k = t[0]
+    if is_masklike(t):
+        return True
+    if k == "Not":
+        return is_boolish(t[1])
+    if k == "Pw" and (t[1] in CMP or t[1] in ("or", "logical_or", "isnan")):
+        return True
+    if k == "Select" and t[3] == FalseC:
+        return is_boolish(t[1]) and is_boolish(t[2])
+    if k == "Crop":
+        return is_boolish(t[2])
+    return False
+
+
+def parse_key(key):
+    """offsets (start of each dimension) of a literal slice key like '1:,:-1', else None"""
+    offs = []
+    for part in key.split(","):
+        m = re.fullmatch(r"(-?\d*):(-?\d*)", part)
+        if not m:
+            return None
+        a, b = m.group(1), m.group(2)
+        if a.startswith("-") or (b and not b.startswith("-") and b != ""):
+            return None                                   # negative starts / positive stops: not a pure shift
+        offs.append(int(a) if a else 0)
+    return offs
 
 
 def fold(t):
-    """a pure function of constants is a constant"""
+    """local simplifications; a pure function of constants is a constant"""
     k = t[0]
     if k in ("Pw", "Glob") and all(is_const(x) for x in t[2]):
         return Const(t[1] + "(..)")
-    if k in ("Loc",) and is_const(t[3]):
+    if k == "Loc" and is_const(t[3]):
         return Const(t[2] + "(..)")
     if k in ("Erode", "ErodeP") and is_const(t[2]):
         return Const("erode(..)")
-    if k == "Not" and is_const(t[1]):
-        return Const("not(..)")
+    if k == "Not":
+        if is_const(t[1]):
+            return Const("not(..)")
+        if t[1][0] == "Not":
+            return t[1][1]
+    if k == "Seq" and all(is_const(x) for x in t[1]):
+        return Const("seq")
     if k == "Crop":
         x = t[2]
         if is_const(x):
             return Const("crop(..)")
+        if set(t[1].split(",")) == {":"}:
+            return x                                      # x[:, :]
         if x[0] == "SetSlice" and x[1] == t[1]:
-            return x[3]                            # NumPy: (x with x[s] := y)[s] == y
+            return x[3]                                    # NumPy: (x with x[s] := y)[s] == y
     if k == "SetSlice":
         x = t[2]
         if x[0] == "SetSlice" and x[1] == t[1]:
-            return fold(SetSlice(t[1], x[2], t[3]))  # second write to the same slice wins
+            return fold(SetSlice(t[1], x[2], t[3]))        # second write to the same slice wins
         if is_const(x) and is_const(t[3]):
             return Const("setslice(..)")
-    if k == "Gather" and is_const(t[1]) and is_const(t[2]):
-        return Const("gather(..)")
+    if k == "Gather":
+        x, m = t[1], t[2]
+        if is_const(x) and is_const(m):
+            return Const("gather(..)")
+        # x[s1][m[s2]] with literal slices: the true pixels p of m (none is cut off, otherwise NumPy raises when the
+        # vector is combined with one gathered by m itself) in the same order, reading x at p + start(s1) - start(s2)
+        if m[0] == "Crop" and parse_key(m[1]) is not None:
+            o2 = parse_key(m[1])
+            if x[0] == "Crop" and parse_key(x[1]) is not None and len(parse_key(x[1])) == len(o2):
+                o1, base = parse_key(x[1]), x[2]
+            elif x[0] != "Crop":
+                o1, base = [0] * len(o2), x
+            else:
+                return t
+            off = [a - b for a, b in zip(o1, o2)]
+            r = max(abs(v) for v in off)
+            sh = base if r == 0 else (Const("shift(..)") if is_const(base) else
+                                      Loc(r, "shift(%s)" % ",".join("%+d" % v for v in off), base))
+            return fold(Gather(sh, m[2]))
+        if x[0] == "Crop" and parse_key(x[1]) is not None and m[0] != "Crop" and not is_const(m):
+            off = parse_key(x[1])
+            r = max(abs(v) for v in off)
+            sh = x[2] if r == 0 else Loc(r, "shift(%s)" % ",".join("%+d" % v for v in off), x[2])
+            return fold(Gather(sh, m))
     return t
 
 
 # ---------------------------------------------------------------- locality table (TRUSTED)
 # pointwise NumPy functions / methods: value at p depends on the arguments at p only
-POINTWISE = {"abs", "absolute", "sqrt", "logical_not", "logical_and", "logical_or", "astype", "copy", "array",
-             "asarray", "ascontiguousarray", "minimum", "maximum", "clip", "exp", "exp2", "log2", "isnan",
-             "real", "floor", "float", "bool", "int"}
+POINTWISE = {"abs", "absolute", "sqrt", "astype", "copy", "array", "asarray", "ascontiguousarray", "minimum",
+             "maximum", "clip", "exp", "exp2", "log2", "isnan", "real", "floor", "float", "bool", "int", "logical_or"}
 # pure functions with arbitrary dependence on their (array) arguments
 GLOBAL = {"table_lookup", "grey_erosion", "grey_dilation", "gaussian_filter", "label", "distance_transform_edt",
           "rank_order", "lstsq", "sum", "max", "min", "any", "all", "mean", "unique", "cumsum", "lexsort",
-          "convolve", "prepare_for_index_lookup", "index_lookup", "extract_from_image_lookup", "function",
-          "product", "strel_disk", "strel_line", "ceil", "nonzero", "argwhere", "maximum_position", "permutation"}
-# array constructors that read only shapes / literals
-CONSTRUCT = {"zeros", "ones", "zeros_like", "ones_like", "generate_binary_structure", "mgrid", "arange", "range",
-             "finfo", "len", "issubdtype", "tuple", "slice", "seed", "float", "int", "max", "min", "ceil"}
+          "convolve", "prepare_for_index_lookup", "index_lookup", "function", "product", "nonzero", "argwhere",
+          "maximum_position", "permutation", "fix", "fixup_scipy_ndimage_result", "hstack", "vstack", "column_stack",
+          "searchsorted", "convex_hull_ijv", "get_line_pts", "convex_hull_transform", "transpose", "len", "tuple",
+          "zeros_like", "ones_like", "zeros", "ones", "float", "int", "range", "arange"}
+# calls that write into one of their arguments (position): the argument becomes a pure function of all arguments
+MUTATES = {"skeletonize_loop": 0, "_filter.median_filter": 2}
+# calls evaluated for an effect that does not concern arrays
+NO_EFFECT = {"seed"}
 # modules whose attribute calls are library calls
 LIBS = {"np", "numpy", "scind", "scipy", "_filter"}
 # functions of the anchored modules that are inlined when called
 INLINE = {"grey_erosion", "grey_dilation", "opening", "closing", "hsobel", "vsobel", "hprewitt", "vprewitt",
           "smooth_with_function_and_mask", "masked_convolution"}
-
+# truthiness-preserving conversions (identity on mask-like terms)
+CONVERSIONS = {"astype", "asarray", "array", "ascontiguousarray", "copy"}
 SHAPE_ATTRS = {"shape", "dtype", "ndim", "size", "eps"}
+BINARY_STRUCTURE = "generate_binary_structure(2,2)"
 
 
 def kernel_radius(node):
@@ -114,10 +219,83 @@ def strip_doc(fn):
     return body
 
 
-def ast_hash(fn):
-    node = ast.FunctionDef(name=fn.name, args=fn.args, body=strip_doc(fn), decorator_list=[], returns=None,
-                           type_comment=None, lineno=0, col_offset=0)
-    return hashlib.sha256(ast.dump(node, annotate_fields=False, include_attributes=False).encode()).hexdigest()[:16]
+# ---------------------------------------------------------------- normalised hash for the hand-written terms
+class _Norm(ast.NodeTransformer):
+    def __init__(self, rename, dead):
+        self.rename, self.dead = rename, dead
+
+    def visit_Name(self, n):
+        return ast.copy_location(ast.Name(id=self.rename.get(n.id, n.id), ctx=n.ctx), n)
+
+    def visit_arg(self, n):
+        return n                                            # parameter names are interface: kept
+
+    def visit_UnaryOp(self, n):
+        self.generic_visit(n)
+        if isinstance(n.op, ast.Not) and isinstance(n.operand, ast.Compare) and len(n.operand.ops) == 1:
+            op = n.operand.ops[0]
+            flip = {ast.Is: ast.IsNot, ast.IsNot: ast.Is, ast.In: ast.NotIn, ast.NotIn: ast.In}.get(type(op))
+            if flip:
+                return ast.Compare(left=n.operand.left, ops=[flip()], comparators=n.operand.comparators)
+        return n
+
+    def visit_Assign(self, n):
+        if len(n.targets) == 1 and isinstance(n.targets[0], ast.Name) and n.targets[0].id in self.dead \
+                and not any(isinstance(c, ast.Call) and not _pure_call(c) for c in ast.walk(n.value)):
+            return None
+        self.generic_visit(n)
+        return n
+
+    def visit_Pass(self, n):
+        return None
+
+    def visit_Expr(self, n):
+        if isinstance(n.value, ast.Constant):
+            return None
+        self.generic_visit(n)
+        return n
+
+
+def _pure_call(c):
+    f = c.func
+    return isinstance(f, ast.Attribute) and f.attr in ("copy", "astype") or \
+        (isinstance(f, ast.Attribute) and isinstance(f.value, ast.Name) and f.value.id in ("np", "numpy"))
+
+
+def norm_hash(fn):
+    fn = copy.deepcopy(fn)
+    params = {a.arg for a in fn.args.args + fn.args.kwonlyargs}
+    stores, loads = [], set()
+    for n in ast.walk(fn):
+        if isinstance(n, ast.Name):
+            if isinstance(n.ctx, ast.Store):
+                if n.id not in params and n.id not in stores:
+                    stores.append(n.id)
+            else:
+                loads.add(n.id)
+    globs = {g for n in ast.walk(fn) if isinstance(n, ast.Global) for g in n.names}
+    # never-read locals (plain dead stores); augmented / subscript stores load the name, so they are kept
+    dead = {s for s in stores if s not in loads and s not in globs}
+    # alpha-renaming in order of first binding (source order)
+    order = []
+    for n in sorted((n for n in ast.walk(fn) if isinstance(n, ast.Name) and isinstance(n.ctx, ast.Store)),
+                    key=lambda n: (n.lineno, n.col_offset)):
+        if n.id not in params and n.id not in globs and n.id not in dead and n.id not in order:
+            order.append(n.id)
+    rename = {name: "_v%d" % k for k, name in enumerate(order)}
+    fn.body = strip_doc(fn)
+    fn = _Norm(rename, dead).visit(fn)
+    fn.decorator_list = []
+    fn.returns = None
+    # an `if` whose body became empty keeps a Pass so that the tree stays well formed
+    for n in ast.walk(fn):
+        for field in ("body", "orelse"):
+            if isinstance(n, (ast.If, ast.For, ast.While, ast.FunctionDef)) and field == "body" and not n.body:
+                n.body = [ast.Pass()]
+    return hashlib.sha256(ast.dump(fn, annotate_fields=False, include_attributes=False).encode()).hexdigest()[:16]
+
+
+ast_hash = norm_hash          # (name kept for mk_pins_c12.py)
 
 
 class Module:
@@ -132,6 +310,10 @@ class Module:
                     self.funcs[mod + "." + n.name] = n
 
 
+class _Return(Exception):
+    pass
+
+
 class Interp:
     """symbolic evaluation of ONE function activation"""
 
@@ -139,8 +321,8 @@ class Interp:
         self.m = module
         self.fn = fn
         self.env = dict(args)
-        self.ret = None
         self.depth = depth
+        self.budget = [400]            # number of branch splits allowed in this activation
         if depth > 6:
             raise Unsupported("inlining too deep")
 
@@ -151,157 +333,255 @@ class Interp:
         if isinstance(f, ast.Attribute):
             v = f.value
             if isinstance(v, ast.Name) and v.id in LIBS:
-                return None, f.attr
+                return None, ("_filter." + f.attr) if v.id == "_filter" else f.attr
             if isinstance(v, ast.Attribute) and isinstance(v.value, ast.Name) and v.value.id in LIBS:
                 return None, f.attr                          # np.random.seed, scipy.linalg.lstsq
             return v, f.attr                                 # method call on an expression
         raise Unsupported("callee " + ast.dump(f)[:80])
 
-    def ev(self, n):
-        return fold(self._ev(n))
+    def ev(self, n, env):
+        return fold(self._ev(n, env))
 
-    def _ev(self, n):
+    def free_deps(self, n, env):
+        """non-constant terms bound to the names an expression reads (for opaque sub-expressions)"""
+        bound = set()
+        for c in ast.walk(n):
+            if isinstance(c, ast.comprehension):
+                for t in ast.walk(c.target):
+                    if isinstance(t, ast.Name):
+                        bound.add(t.id)
+            if isinstance(c, ast.Lambda):
+                bound.update(a.arg for a in c.args.args)
+        deps = []
+        for c in ast.walk(n):
+            if isinstance(c, ast.Name) and isinstance(c.ctx, ast.Load) and c.id not in bound and c.id in env:
+                t = env[c.id]
+                if not is_const(t) and t not in deps:
+                    deps.append(t)
+        return deps
+
+    def _ev(self, n, env):
         if isinstance(n, ast.Name):
-            if n.id in self.env:
-                return self.env[n.id]
-            return Const("$" + n.id)                         # module-level constant / table
+            if n.id in env:
+                return env[n.id]
+            return Const("$" + n.id)                         # module-level constant / table / function
         if isinstance(n, ast.Constant):
             if n.value is False or (isinstance(n.value, (int, float)) and not isinstance(n.value, bool)
                                     and n.value == 0):
                 return FalseC
             return Const(repr(n.value))
         if isinstance(n, (ast.Tuple, ast.List)):
-            parts = [self.ev(e) for e in n.elts]
-            if all(is_const(p) for p in parts):
-                return Const("seq")
-            raise Unsupported("sequence of arrays")
+            parts = [self.ev(e, env) for e in n.elts]
+            if parts and all(isinstance(e, ast.Call) and isinstance(e.func, ast.Name) and e.func.id == "slice"
+                             and len(e.args) == 2 and not e.keywords for e in n.elts) and all(is_const(p) for p in parts):
+                return Slices(",".join(self.slice_call_text(e) for e in n.elts))
+            return Seq(*parts)
         if isinstance(n, ast.UnaryOp):
-            t = self.ev(n.operand)
+            t = self.ev(n.operand, env)
             if isinstance(n.op, (ast.Invert, ast.Not)):
                 return Not(t)
             return Pw("neg", t)
         if isinstance(n, ast.BinOp):
-            ts = [self.ev(n.left), self.ev(n.right)]
+            ts = [self.ev(n.left, env), self.ev(n.right, env)]
+            if any(t[0] == "Seq" for t in ts):
+                raise Unsupported("arithmetic on a python sequence of arrays")
             return Pw(type(n.op).__name__.lower(), *[t for t in ts if not is_const(t)]) \
                 if not all(is_const(t) for t in ts) else Const("expr")
         if isinstance(n, ast.Compare):
             if len(n.ops) != 1:
                 raise Unsupported("chained comparison")
-            l, r = self.ev(n.left), self.ev(n.comparators[0])
-            if isinstance(n.ops[0], (ast.Is, ast.IsNot)):
+            l, r = self.ev(n.left, env), self.ev(n.comparators[0], env)
+            op = n.ops[0]
+            if isinstance(op, (ast.Is, ast.IsNot, ast.In, ast.NotIn)):
                 if is_const(l) and is_const(r):
                     return Const("is")
-                raise Unsupported("`is` on an array outside a recognised mask test")
-            if isinstance(n.ops[0], ast.Eq) and r == FalseC and not is_const(l) \
-                    and isinstance(n.comparators[0], ast.Constant) and n.comparators[0].value is False:
-                return Not(l)                                # m == False
+                raise Unsupported("`is`/`in` on an array outside a recognised mask test")
+            if isinstance(op, ast.Eq) and r == FalseC and is_boolish(l):
+                return Not(l)                                # m == False, m == 0
+            if isinstance(op, ast.NotEq) and r == FalseC and is_boolish(l):
+                return l                                     # m != 0
             ts = [t for t in (l, r) if not is_const(t)]
-            return Pw(type(n.ops[0]).__name__.lower(), *ts) if ts else Const("cmp")
+            return Pw(type(op).__name__.lower(), *ts) if ts else Const("cmp")
         if isinstance(n, ast.BoolOp):
-            ts = [self.ev(v) for v in n.values]
-            if all(is_const(t) for t in ts):
-                return Const("boolop")
-            raise Unsupported("and/or on arrays")
+            ts = [self.ev(v, env) for v in n.values]
+            arr = [t for t in ts if not is_const(t)]
+            return Pw("or" if isinstance(n.op, ast.Or) else "and", *arr) if arr else Const("boolop")
         if isinstance(n, ast.Attribute):
-            if n.attr in SHAPE_ATTRS:
-                return Const("." + n.attr)
-            base = self.ev(n.value)
+            base = self.ev(n.value, env)
             if is_const(base):
-                return Const("attr")
+                return Const("." + n.attr)
+            if n.attr in SHAPE_ATTRS:
+                return self.shape_of(base)
             raise Unsupported("attribute ." + n.attr)
         if isinstance(n, ast.Subscript):
-            return self.subscript(n)
+            return self.subscript(n, env)
         if isinstance(n, ast.Call):
-            return self.call(n)
+            return self.call(n, env)
         if isinstance(n, ast.Lambda):
-            raise Unsupported("lambda")
+            if self.free_deps(n.body, env):
+                raise Unsupported("lambda closing over array data")
+            return Const("$callable")
+        if isinstance(n, (ast.ListComp, ast.GeneratorExp, ast.IfExp)):
+            for c in ast.walk(n):
+                if isinstance(c, ast.Call):
+                    _, f = self.call_name(c.func)
+                    if f in MUTATES or (isinstance(c.func, ast.Name) and c.func.id in env
+                                        and env[c.func.id] == Const("$callable")):
+                        raise Unsupported("effectful call inside an opaque expression")
+            deps = self.free_deps(n, env)
+            return Glob("opaque_expression", *deps) if deps else Const("expr")
         raise Unsupported(type(n).__name__)
 
-    def slice_key(self, sl):
-        """text of a pure-slice index whose bounds are constants, else None"""
+    def shape_of(self, t):
+        """shape/size/dtype of a term: image-shaped terms have the (constant) image shape; the length of a gathered
+        vector depends on its selector; anything else is an opaque function of the term"""
+        k = t[0]
+        if k in ("Img", "MaskE", "Pw", "Loc", "Erode", "ErodeP", "Select", "Not", "MConv"):
+            if k == "Pw" and any(x[0] in ("Gather", "Glob") for x in t[2]):
+                return Glob("shape_of", t)
+            return Const(".shape")
+        if k == "Gather":
+            return Glob("count_nonzero", t[2])
+        return Glob("shape_of", t)
+
+    def slice_call_text(self, e):
+        return ":".join("" if (isinstance(a, ast.Constant) and a.value is None) else ast.unparse(a).replace(" ", "")
+                        for a in e.args[:2]) if len(e.args) == 2 else None
+
+    def slice_key(self, sl, env):
+        """canonical text of a pure-slice index whose bounds are constants (also through a local bound to a tuple
+        of slice objects), else None"""
+        if isinstance(sl, ast.Name) and sl.id in env and env[sl.id][0] == "Slices":
+            return env[sl.id][1]
         elts = sl.elts if isinstance(sl, ast.Tuple) else [sl]
         if not all(isinstance(e, ast.Slice) for e in elts):
             return None
         for e in elts:
             for b in (e.lower, e.upper, e.step):
-                if b is not None and not is_const(self.ev(b)):
-                    raise Unsupported("slice bound depends on an array")
-        return ast.unparse(sl).replace(" ", "")
+                if b is not None and not is_const(self.ev(b, env)):
+                    return None                               # handled by index_terms (bounds become dependencies)
+            if e.step is not None:
+                return None
+        return ",".join(("" if e.lower is None else ast.unparse(e.lower).replace(" ", "")) + ":" +
+                        ("" if e.upper is None else ast.unparse(e.upper).replace(" ", "")) for e in elts)
 
-    def subscript(self, n):
-        base = self.ev(n.value)
-        key = self.slice_key(n.slice)
+    def subscript(self, n, env):
+        base = self.ev(n.value, env)
+        key = self.slice_key(n.slice, env)
         if key is not None:
             return Const("idx") if is_const(base) else Crop(key, base)
-        idx = self.ev(n.slice)
-        if is_const(base) and is_const(idx):
+        elts = n.slice.elts if isinstance(n.slice, ast.Tuple) else [n.slice]
+        idx = self.index_terms(elts, env)
+        if base[0] == "Seq" and len(idx) == 1 and isinstance(n.slice, ast.Constant) and isinstance(n.slice.value, int):
+            return base[1][n.slice.value]
+        arr = [t for t in idx if not is_const(t)]
+        if is_const(base) and not arr:
             return Const("idx")
-        if isinstance(n.slice, ast.Tuple):
-            raise Unsupported("fancy index")
-        return Gather(base, idx)                             # x[m] with a boolean array m
+        if not arr:
+            return Glob("index", base)                        # x[0], x[k, :, :]: constant position
+        if len(idx) == 1 and is_boolish(idx[0]):
+            return Gather(base, idx[0])                      # boolean-mask indexing
+        return Glob("index", *([base] if not is_const(base) else []) + arr)      # integer / fancy indexing
 
-    def call(self, n):
+    def index_terms(self, elts, env):
+        out = []
+        for e in elts:
+            if isinstance(e, ast.Slice):
+                deps = [self.ev(b, env) for b in (e.lower, e.upper, e.step) if b is not None]
+                deps = [d for d in deps if not is_const(d)]
+                if any(d[0] == "Seq" for d in deps):
+                    raise Unsupported("sequence as a slice bound")
+                out.append(Glob("slice", *deps) if deps else Const("slice"))
+            else:
+                t = self.ev(e, env)
+                if t[0] == "Seq":
+                    t = fold(Glob("array_of", *[x for x in t[1] if not is_const(x)])) if any(
+                        not is_const(x) for x in t[1]) else Const("seq")
+                out.append(t)
+        return out
+
+    def call(self, n, env):
         recv, f = self.call_name(n.func)
-        args = [self.ev(a) for a in n.args]
-        kws = {k.arg: self.ev(k.value) for k in n.keywords}
-        if any(k.arg is None for k in n.keywords):
-            raise Unsupported("**kwargs")
+        if any(k.arg is None for k in n.keywords) or any(isinstance(a, ast.Starred) for a in n.args):
+            raise Unsupported("*args/**kwargs")
+        args = [self.ev(a, env) for a in n.args]
+        kws = {k.arg: self.ev(k.value, env) for k in n.keywords}
+        flat = []
+        for a in args + list(kws.values()):
+            flat.extend(a[1] if a[0] == "Seq" else [a])
+        arr = [a for a in flat if not is_const(a)]
         if recv is not None:
-            r = self.ev(recv)
-            if f in ("astype", "copy") :
-                return Pw(f, r)
-            if is_const(r) and all(is_const(a) for a in args):
+            r = self.ev(recv, env)
+            if r[0] == "Seq":
+                raise Unsupported("method on a python sequence")
+            if f in ("astype", "copy"):
+                if is_const(r):
+                    return Const("method")
+                return r if (f == "astype" and is_masklike(r)) else Pw(f, r)
+            if is_const(r) and not arr:
                 return Const("method")
-            if f in ("sum", "max", "min", "any", "all", "mean") and not args:
-                return Glob(f, r)
+            if f in ("sum", "max", "min", "any", "all", "mean", "transpose", "ravel", "flatten", "tolist") and not is_const(r):
+                return Glob(f, r, *arr)
             raise Unsupported("method ." + f)
-        # `function(x)`: a parameter that is a callable (smooth_with_function_and_mask)
-        if isinstance(n.func, ast.Name) and n.func.id in self.env and self.env[n.func.id] == Const("$callable"):
-            return Glob("function", *args)
+        if f in MUTATES or f in NO_EFFECT:
+            raise Unsupported("effectful call %s used as an expression" % f)
+        # a parameter / local that is a callable (smooth_with_function_and_mask, canny's lambda)
+        if isinstance(n.func, ast.Name) and n.func.id in env:
+            if env[n.func.id] == Const("$callable"):
+                return Glob("function", *arr) if arr else Const("function(..)")
+            raise Unsupported("call of a local value")
         if isinstance(n.func, ast.Name) and f in INLINE and f in self.m.funcs:
-            return self.inline(self.m.funcs[f], n, args, kws)
-        arr = [a for a in args if not is_const(a)] + [v for v in kws.values() if not is_const(v)]
+            return self.inline(self.m.funcs[f], args, kws)
+        if f == "slice":
+            return Const("slice") if not arr else self._unsupported("slice of arrays")
         if f == "binary_erosion":
             # binary_erosion(m, generate_binary_structure(2, 2), border_value=0): 3x3 erosion, False beyond the border
-            if len(n.args) != 2 or ast.unparse(n.args[1]).replace(" ", "") != "generate_binary_structure(2,2)":
+            if len(args) != 2 or args[1] != Const(BINARY_STRUCTURE):
                 raise Unsupported("binary_erosion with an unrecognised structure")
             bv = [k for k in n.keywords if k.arg == "border_value"]
             if len(bv) != 1 or not (isinstance(bv[0].value, ast.Constant) and bv[0].value.value == 0) or len(n.keywords) != 1:
                 raise Unsupported("binary_erosion without border_value=0")
-            return Erode(1, args[0])
+            return Erode(1, args[0]) if not is_const(args[0]) else Const("erode(..)")
+        if not arr:
+            if f == "generate_binary_structure":
+                return Const(ast.unparse(n).replace(" ", "").split(".")[-1])
+            return Const(f + "(..)")                          # a function of image-independent values
         if f == "convolve" and len(n.args) >= 2:
-            if is_const(args[0]):
-                return Const("convolve(..)")
             if not is_const(args[1]):
                 raise Unsupported("convolve with a data-dependent kernel")
             r = kernel_radius(n.args[1])
-            if r is not None:
+            if r is not None and len(arr) == 1:
                 return Loc(r, "convolve%dx%d" % (2 * r + 1, 2 * r + 1), args[0])
-            return Glob("convolve", args[0])                 # kernel of unknown size: no locality claimed
-        if f == "masked_convolution" and len(args) == 3 and not kws:
+            return Glob("convolve", *arr)                    # kernel of unknown size: no locality claimed
+        if f == "_filter.masked_convolution" and len(args) == 3 and not kws:
             if not is_const(args[2]):
                 raise Unsupported("masked_convolution with a data-dependent kernel")
             return MConv("kernel", args[0], args[1])
-        if f in ("logical_and",) and len(args) == 2 and not kws:
-            if is_const(args[0]) and is_const(args[1]):
-                return Const("and")
+        if f == "extract_from_image_lookup" and len(args) == 3 and not kws:
+            # _cpmorphology2.pyx: output = zeros; output[i-1, j-1] = orig_image[i-1, j-1]
+            idx = [a for a in args[1:] if not is_const(a)]
+            return Select(args[0], Glob("index_set", *idx), Const("zeros"))
+        if f == "logical_and" and len(args) == 2 and not kws:
             return And(args[0], args[1])
         if f == "logical_not" and len(args) == 1:
             return Not(args[0])
-        if f in CONSTRUCT and not arr:
-            return Const(f)
+        if f in CONVERSIONS and len(arr) == 1 and is_masklike(args[0]) and f != "copy":
+            return args[0]                                   # np.asarray(mask, bool), np.array(mask, np.uint8): truthiness kept
         if f in POINTWISE:
-            return Pw(f, *arr) if arr else Const(f)
+            return Pw(f, *arr)
         if f in GLOBAL:
-            return Glob(f, *arr) if arr else Const(f)
+            return Glob(f, *arr)
         raise Unsupported("call " + f)
 
-    def inline(self, fn, call, args, kws):
+    def _unsupported(self, msg):
+        raise Unsupported(msg)
+
+    def inline(self, fn, args, kws):
         params = [a.arg for a in fn.args.args]
         defaults = fn.args.defaults
         bound = {}
         for p, d in zip(params[len(params) - len(defaults):], defaults):
-            bound[p] = Const("None") if (isinstance(d, ast.Constant) and d.value is None) else self.ev(d)
+            bound[p] = Const("None") if (isinstance(d, ast.Constant) and d.value is None) else self.ev(d, {})
         for p, a in zip(params, args):
             bound[p] = a
         for k, v in kws.items():
@@ -311,64 +591,195 @@ class Interp:
         if set(params) - set(bound):
             raise Unsupported("missing arguments in call to " + fn.name)
         sub = Interp(self.m, fn, bound, self.depth + 1)
-        sub.run(strip_doc(fn))
-        if sub.ret is None:
-            raise Unsupported("inlined function without return")
-        return sub.ret
+        return sub.run_function()
 
     # -- statements --------------------------------------------------------------------
-    def mask_test(self, test):
-        """`if` tests of the form `X is None` / `not X is None` / `X is not None` where X is bound to an
-        array (test decided: the array is present) or to the literal None (decided: absent).
-        Returns True (run the body), False (run the else part) or None (not such a test)."""
-        t = ast.unparse(test).replace(" ", "").replace("(", "").replace(")", "")
-        for name, val in self.env.items():
-            if val == Const("None"):
-                absent = True
-            elif not is_const(val):
-                absent = False
-            else:
+    def mask_test(self, test, env):
+        """`if` tests of the form `X is None` / `not X is None` / `X is not None` where X is bound to an array (decided:
+        present) or to the literal None (decided: absent).  True = run the body, False = the else part, None = other."""
+        neg = False
+        while isinstance(test, ast.UnaryOp) and isinstance(test.op, ast.Not):
+            test, neg = test.operand, not neg
+        if not (isinstance(test, ast.Compare) and len(test.ops) == 1 and isinstance(test.left, ast.Name)
+                and isinstance(test.comparators[0], ast.Constant) and test.comparators[0].value is None
+                and isinstance(test.ops[0], (ast.Is, ast.IsNot))):
+            return None
+        val = env.get(test.left.id)
+        if val is None:
+            return None
+        if val == Const("None"):
+            absent = True
+        elif not is_const(val):
+            absent = False
+        else:
+            return None
+        res = absent if isinstance(test.ops[0], ast.Is) else not absent
+        return (not res) if neg else res
+
+    def run_function(self):
+        ret = self.block(strip_doc(self.fn), self.env)
+        if ret is None:
+            raise Unsupported("a path of %s ends without return" % self.fn.name)
+        return ret
+
+    def block(self, stmts, env):
+        """execute stmts in env (mutated); returns the returned term or None when control falls off the end"""
+        for k, st in enumerate(stmts):
+            rest = stmts[k + 1:]
+            if isinstance(st, ast.Expr) and isinstance(st.value, ast.Constant):
                 continue
-            if t == name + "isNone":
-                return absent
-            if t in ("not" + name + "isNone", name + "isnotNone"):
-                return not absent
+            if isinstance(st, (ast.Global, ast.Pass, ast.Delete)):
+                continue
+            if isinstance(st, ast.Return):
+                if st.value is None:
+                    raise Unsupported("bare return")
+                r = self.ev(st.value, env)
+                if r[0] in ("Seq", "Slices"):
+                    raise Unsupported("function returns a python sequence")
+                return r
+            if isinstance(st, ast.Assign):
+                if len(st.targets) != 1:
+                    raise Unsupported("multiple targets")
+                self.assign(st.targets[0], st.value, env)
+                continue
+            if isinstance(st, ast.AugAssign):
+                op = type(st.op).__name__.lower()
+                if isinstance(st.target, ast.Name):
+                    cur, v = self.ev(st.target, env), self.ev(st.value, env)
+                    ts = [t for t in (cur, v) if not is_const(t)]
+                    env[st.target.id] = fold(Pw(op, *ts)) if ts else Const("expr")
+                elif isinstance(st.target, ast.Subscript):
+                    self.assign_sub(st.target, st.value, env, aug=op)
+                else:
+                    raise Unsupported("augmented target")
+                continue
+            if isinstance(st, ast.Expr) and isinstance(st.value, ast.Call):
+                self.effect_call(st.value, env)
+                continue
+            if isinstance(st, (ast.For, ast.While)):
+                self.loop(st, env)
+                continue
+            if isinstance(st, ast.If):
+                k2 = self.mask_test(st.test, env)
+                if k2 is True:
+                    return self.block(st.body + rest, env)
+                if k2 is False:
+                    return self.block(st.orelse + rest, env)
+                cond = self.ev(st.test, env)
+                if cond == Const("True"):
+                    return self.block(st.body + rest, env)
+                if cond == FalseC:
+                    return self.block(st.orelse + rest, env)
+                if cond[0] == "Seq":
+                    raise Unsupported("truth value of a sequence")
+                if is_const(cond):
+                    merged = self.try_merge(st, env)
+                    if merged is not None:
+                        env.clear(); env.update(merged)
+                        continue
+                # split: each branch is continued with the rest of the body
+                self.budget[0] -= 1
+                if self.budget[0] < 0:
+                    raise Unsupported("too many branch splits")
+                e1, e2 = dict(env), dict(env)
+                r1 = self.block(st.body + rest, e1)
+                r2 = self.block(st.orelse + rest, e2)
+                if r1 is None or r2 is None:
+                    if r1 is None and r2 is None:
+                        raise Unsupported("branches fall off the end of the function")
+                    raise Unsupported("one branch returns, the other falls off the end")
+                return r1 if r1 == r2 else fold(Select(r1, cond, r2))
+            raise Unsupported(type(st).__name__)
         return None
 
-    def store(self, name, value):
-        self.env[name] = fold(value)
+    def try_merge(self, st, env):
+        """configuration `if` whose branches do not return and agree on every array: one merged environment"""
+        envs = []
+        for body in (st.body, st.orelse):
+            e = dict(env)
+            try:
+                if any(isinstance(c, ast.Return) for b in body for c in ast.walk(b)):
+                    return None
+                if self.block(body, e) is not None:
+                    return None
+            except Unsupported:
+                raise
+            envs.append(e)
+        out = {}
+        for name in set(envs[0]) | set(envs[1]):
+            a, b = envs[0].get(name), envs[1].get(name)
+            if a == b:
+                out[name] = a
+            elif (a is None or is_const(a)) and (b is None or is_const(b)):
+                out[name] = Const("cfg:" + name)
+            else:
+                return None
+        return out
 
-    def assign_sub(self, target, value_node, aug=None):
-        v = self.ev(value_node)
+    def assign(self, t, value, env):
+        if isinstance(t, ast.Name):
+            v = self.ev(value, env)
+            env[t.id] = v
+        elif isinstance(t, (ast.Tuple, ast.List)) and all(isinstance(e, ast.Name) for e in t.elts):
+            v = self.ev(value, env)
+            if v[0] == "Seq" and len(v[1]) == len(t.elts):
+                for e, x in zip(t.elts, v[1]):
+                    env[e.id] = x
+            elif is_const(v):
+                for e in t.elts:
+                    env[e.id] = Const("unpacked")
+            elif v[0] == "Seq":
+                raise Unsupported("unpacking a sequence of different length")
+            else:
+                for k, e in enumerate(t.elts):
+                    env[e.id] = Glob("unpack%d" % k, v)
+        elif isinstance(t, ast.Subscript):
+            self.assign_sub(t, value, env)
+        elif isinstance(t, ast.Attribute) and isinstance(t.value, ast.Name):
+            # x.shape = ..., x.flat = ...: only on image-independent values
+            if not (is_const(env.get(t.value.id, Const("g"))) and is_const(self.ev(value, env))):
+                raise Unsupported("attribute store on array data")
+        else:
+            raise Unsupported("assignment target")
+
+    def assign_sub(self, target, value_node, env, aug=None):
+        v = self.ev(value_node, env)
+        if v[0] == "Seq":
+            v = Glob("array_of", *[x for x in v[1] if not is_const(x)]) if any(not is_const(x) for x in v[1]) else Const("seq")
         inner = target.value
         # x[slices][sel] = v   (write through a view)
         if isinstance(inner, ast.Subscript) and isinstance(inner.value, ast.Name):
             name = inner.value.id
-            key = self.slice_key(inner.slice)
-            if key is None or name not in self.env:
+            key = self.slice_key(inner.slice, env)
+            if key is None or name not in env:
                 raise Unsupported("store through an unrecognised view")
-            cur = self.env[name]
+            cur = env[name]
             view = fold(Crop(key, cur))
-            self.store(name, SetSlice(key, cur, self.masked_write(view, self.ev(target.slice), v, aug)))
+            env[name] = fold(SetSlice(key, cur, self.indexed_write(view, target.slice, v, aug, env)))
             return
-        if not isinstance(inner, ast.Name) or inner.id not in self.env:
+        if not isinstance(inner, ast.Name) or inner.id not in env:
             raise Unsupported("store into an unknown array")
         name = inner.id
-        cur = self.env[name]
-        key = self.slice_key(target.slice)
+        cur = env[name]
+        key = self.slice_key(target.slice, env)
         if key is not None:                                   # x[slices] = v
             if aug:
-                raise Unsupported("augmented slice store")
-            self.store(name, SetSlice(key, cur, v))
+                v = Pw(aug, Crop(key, cur), v)
+            env[name] = fold(SetSlice(key, cur, fold(v)))
             return
-        if isinstance(target.slice, ast.Tuple):
-            raise Unsupported("fancy-index store")
-        self.store(name, self.masked_write(cur, self.ev(target.slice), v, aug))
+        env[name] = self.indexed_write(cur, target.slice, v, aug, env)
+
+    def indexed_write(self, cur, sl, v, aug, env):
+        elts = sl.elts if isinstance(sl, ast.Tuple) else [sl]
+        idx = self.index_terms(elts, env)
+        arr = [t for t in idx if not is_const(t)]
+        if len(idx) == 1 and arr and is_boolish(idx[0]):
+            return fold(self.masked_write(cur, idx[0], v, aug))
+        parts = [t for t in [cur] + arr + [v] if not is_const(t)]
+        return Glob("indexed_store", *parts) if parts else Const("store")
 
     def masked_write(self, cur, sel, v, aug):
         """cur[sel] = v  /  cur[sel] op= v   for a boolean selector array"""
-        if is_const(sel) and is_const(cur) and is_const(v):
-            return Const("store")
         neg = False
         while sel[0] == "Not":
             sel, neg = sel[1], not neg
@@ -379,90 +790,84 @@ class Interp:
             if vs == sel and vn == neg:
                 v = v[1]                                      # x[sel] = y[sel]
             else:
-                raise Unsupported("x[a] = y[b] with different selectors")
+                v = Glob("scatter", v, sel)
+        elif v[0] == "Pw" and aug is None and all(x[0] == "Gather" and self._same_sel(x[2], sel, neg) or is_const(x)
+                                                   for x in v[2]) and any(x[0] == "Gather" for x in v[2]):
+            v = Pw(v[1], *[x[1] if x[0] == "Gather" else x for x in v[2]])      # x[sel] = f(y[sel], z[sel]) pointwise
         elif not is_const(v):
             v = Glob("scatter", v, sel)                       # values in gathered order: needs clean v
         if aug:
             v = Pw(aug, cur, v)
         return Select(cur, sel, v) if neg else Select(v, sel, cur)
 
-    def run(self, body):
-        for st in body:
-            if self.ret is not None:
-                raise Unsupported("statement after return")
-            if isinstance(st, ast.Expr) and isinstance(st.value, ast.Constant):
-                continue
-            if isinstance(st, ast.Global):
-                continue
-            if isinstance(st, ast.Assign):
-                if len(st.targets) != 1:
-                    raise Unsupported("multiple targets")
-                t = st.targets[0]
-                if isinstance(t, ast.Name):
-                    self.store(t.id, self.ev(st.value))
-                elif isinstance(t, ast.Tuple) and all(isinstance(e, ast.Name) for e in t.elts):
-                    v = self.ev(st.value)
-                    if not is_const(v):
-                        raise Unsupported("tuple assignment of arrays")
-                    for e in t.elts:
-                        self.store(e.id, Const("unpacked"))
-                elif isinstance(t, ast.Subscript):
-                    self.assign_sub(t, st.value)
-                else:
-                    raise Unsupported("assignment target")
-                continue
-            if isinstance(st, ast.AugAssign):
-                op = type(st.op).__name__.lower()
-                if isinstance(st.target, ast.Name):
-                    cur = self.ev(st.target)
-                    v = self.ev(st.value)
-                    ts = [t for t in (cur, v) if not is_const(t)]
-                    self.store(st.target.id, Pw(op, *ts) if ts else Const("expr"))
-                elif isinstance(st.target, ast.Subscript):
-                    self.assign_sub(st.target, st.value, aug=op)
-                else:
-                    raise Unsupported("augmented target")
-                continue
-            if isinstance(st, ast.If):
-                k = self.mask_test(st.test)
-                if k is True:
-                    self.run(st.body)
-                elif k is False:
-                    self.run(st.orelse)
-                else:
-                    self.config_if(st)
-                continue
-            if isinstance(st, ast.Return):
-                if st.value is None:
-                    raise Unsupported("bare return")
-                self.ret = self.ev(st.value)
-                continue
-            if isinstance(st, (ast.Delete, ast.Pass)):
-                continue
-            raise Unsupported(type(st).__name__)
+    @staticmethod
+    def _same_sel(vs, sel, neg):
+        vn = False
+        while vs[0] == "Not":
+            vs, vn = vs[1], not vn
+        return vs == sel and vn == neg
 
-    def config_if(self, st):
-        """`if` on configuration only (radius / footprint / iterations): both branches are run and
-        must agree on every array; scalars that differ become one opaque constant."""
-        if not is_const(self.ev(st.test)):
-            raise Unsupported("branch on array data: " + ast.unparse(st.test)[:60])
-        envs = []
-        for body in (st.body, st.orelse):
-            sub = Interp(self.m, self.fn, self.env, self.depth)
-            sub.run(body)
-            if sub.ret is not None:
-                raise Unsupported("return inside a configuration branch")
-            envs.append(sub.env)
-        for name in set(envs[0]) | set(envs[1]):
-            a, b = envs[0].get(name), envs[1].get(name)
-            if a == b:
-                self.env[name] = a
-            elif a is not None and b is not None and is_const(a) and is_const(b):
-                self.env[name] = Const("cfg:" + name)
-            elif (a is None or is_const(a)) and (b is None or is_const(b)):
-                self.env[name] = Const("cfg:" + name)
-            else:
-                raise Unsupported("configuration branches disagree on array " + name)
+    def effect_call(self, c, env):
+        recv, f = self.call_name(c.func)
+        if recv is None and f in NO_EFFECT:
+            return
+        if recv is None and f in MUTATES:
+            pos = MUTATES[f]
+            if pos >= len(c.args) or not isinstance(c.args[pos], ast.Name):
+                raise Unsupported("mutated argument of %s is not a plain name" % f)
+            args = [self.ev(a, env) for a in c.args]
+            arr = [a for a in args if not is_const(a) and a[0] != "Seq"]
+            if any(a[0] == "Seq" for a in args):
+                raise Unsupported("sequence argument to " + f)
+            env[c.args[pos].id] = Glob(f, *arr) if arr else Const(f + "(..)")
+            return
+        raise Unsupported("call evaluated for its effect: " + f)
+
+    def loop(self, st, env):
+        """for/while: every variable written in the loop becomes an opaque pure function of the entry values of every
+        variable read in the loop (loop-carried or not)."""
+        written, read = [], []
+        for c in ast.walk(st):
+            if isinstance(c, ast.Return):
+                raise Unsupported("return inside a loop")
+            if isinstance(c, (ast.Yield, ast.YieldFrom, ast.Lambda, ast.FunctionDef, ast.Try, ast.With)):
+                raise Unsupported("construct inside a loop")
+            if isinstance(c, ast.Name):
+                if isinstance(c.ctx, ast.Store):
+                    if c.id not in written:
+                        written.append(c.id)
+                elif c.id not in read:
+                    read.append(c.id)
+            if isinstance(c, (ast.Assign, ast.AugAssign)):
+                for t in (c.targets if isinstance(c, ast.Assign) else [c.target]):
+                    while isinstance(t, (ast.Subscript, ast.Attribute)):
+                        t = t.value
+                    if isinstance(t, ast.Name) and t.id not in written:
+                        written.append(t.id)
+            if isinstance(c, ast.Call):
+                recv, f = self.call_name(c.func)
+                if recv is None and f in MUTATES:
+                    a = c.args[MUTATES[f]]
+                    if not isinstance(a, ast.Name):
+                        raise Unsupported("mutated argument is not a plain name")
+                    if a.id not in written:
+                        written.append(a.id)
+                elif recv is None and isinstance(c.func, ast.Name) and c.func.id in env \
+                        and env[c.func.id] == Const("$callable"):
+                    pass
+                elif isinstance(c, ast.Call) and isinstance(c.func, ast.Name) and f not in INLINE and f not in GLOBAL \
+                        and f not in self.m.funcs and f not in POINTWISE and f not in ("range", "len", "int", "float", "min", "max", "zip",
+                                                            "enumerate", "slice", "extract_from_image_lookup"):
+                    raise Unsupported("unknown call %s inside a loop" % f)
+        deps = []
+        for r in read:
+            t = env.get(r)
+            if t is not None and not is_const(t):
+                for x in (t[1] if t[0] == "Seq" else [t]):
+                    if not is_const(x) and x not in deps:
+                        deps.append(x)
+        for w in written:
+            env[w] = Glob("loop:" + w, *deps) if deps else Const("loop:" + w)
 
 
 def translate(module, name, image_param=None, callables=()):
@@ -477,16 +882,22 @@ def translate(module, name, image_param=None, callables=()):
     if "mask" not in params:
         raise Unsupported("no mask parameter")
     env["mask"] = MaskE
-    it = Interp(module, fn, env)
-    it.run(strip_doc(fn))
-    if it.ret is None:
-        raise Unsupported("no return value")
-    return it.ret
+    return Interp(module, fn, env).run_function()
 
 
 # ---------------------------------------------------------------- lowering + Coq emission
+_LOW = {}
+
+
 def lower(t):
-    """eliminate the internal nodes"""
+    """eliminate the internal nodes (memoised: terms are DAGs with heavy sharing)"""
+    r = _LOW.get(t)
+    if r is None:
+        r = _LOW[t] = _lower(t)
+    return r
+
+
+def _lower(t):
     k = t[0]
     if k in ("Img", "MaskE", "FalseC", "Const"):
         return t
@@ -500,17 +911,17 @@ def lower(t):
     if k == "SetSlice":
         return Glob("setslice" + t[1], lower(t[2]), lower(t[3]))
     if k in ("Erode", "ErodeP"):
-        return (k, t[1], lower(t[2]))
+        return T(k, t[1], lower(t[2]))
     if k in ("Pw", "Glob"):
-        return (k, t[1], tuple(lower(x) for x in t[2]))
+        return T(k, t[1], tuple(lower(x) for x in t[2]))
     if k == "Loc":
-        return ("Loc", t[1], t[2], lower(t[3]))
+        return T("Loc", t[1], t[2], lower(t[3]))
     if k == "Select":
         m, neg = lower_sel(t[2])
         a, b = lower(t[1]), lower(t[3])
         return Select(b, m, a) if neg else Select(a, m, b)
     if k == "MConv":
-        return ("MConv", t[1], lower(t[2]), lower(t[3]))
+        return T("MConv", t[1], lower(t[2]), lower(t[3]))
     raise Unsupported("lower " + k)
 
 
@@ -522,9 +933,15 @@ def lower_sel(m):
 
 
 class Emitter:
+    """Coq text of terms; sub-terms that occur repeatedly are emitted once as `Definition sh_k` (the term denoted is
+    the same tree; only the text is shared)."""
+
     def __init__(self):
         self.syms = {}
         self.consts = {}
+        self.memo = {}
+        self.size = {}
+        self.defs = []
 
     def sym(self, name):
         return self.syms.setdefault(name, len(self.syms))
@@ -532,7 +949,50 @@ class Emitter:
     def const(self, name):
         return self.consts.setdefault(name, len(self.consts))
 
+    def tsize(self, t):
+        r = self.size.get(t)
+        if r is None:
+            k = t[0]
+            if k in ("Img", "MaskE", "FalseC", "Const"):
+                r = 1
+            elif k in ("Pw", "Glob"):
+                r = 1 + sum(self.tsize(x) for x in t[2])
+            else:
+                r = 1 + sum(self.tsize(x) for x in t[1:] if isinstance(x, tuple))
+            self.size[t] = r
+        return r
+
     def coq(self, t):
+        r = self.memo.get(t)
+        if r is not None:
+            return r
+        r = self._coq(t)
+        if self.tsize(t) > 12:
+            name = "sh_%d" % len(self.defs)
+            self.defs.append("Definition %s : expr := %s." % (name, r))
+            r = name
+        self.memo[t] = r
+        return r
+
+    def coq_param(self, t, sym):
+        """unshared text of a term whose radii equal to `sym` are printed as the variable r"""
+        k = t[0]
+        rr = lambda v: "r" if v == sym else str(v)
+        if k in ("Img", "MaskE", "FalseC"):
+            return k
+        if k == "Const":
+            return "(Const %d)" % self.const(t[1])
+        if k in ("Erode", "ErodeP"):
+            return "(%s %s %s)" % (k, rr(t[1]), self.coq_param(t[2], sym))
+        if k in ("Pw", "Glob"):
+            return "(%s %d [%s])" % (k, self.sym(t[1]), "; ".join(self.coq_param(x, sym) for x in t[2]))
+        if k == "Loc":
+            return "(Loc %s %d %s)" % (rr(t[1]), self.sym(t[2]), self.coq_param(t[3], sym))
+        if k == "Select":
+            return "(Select %s %s %s)" % tuple(self.coq_param(x, sym) for x in t[1:])
+        raise Unsupported("emit(param) " + k)
+
+    def _coq(self, t):
         k = t[0]
         if k in ("Img", "MaskE", "FalseC"):
             return k
@@ -551,21 +1011,29 @@ class Emitter:
         raise Unsupported("emit " + k)
 
 
-def show(t):
+def show(t, limit=600):
+    s = _show(t, [limit * 3])
+    return s if len(s) <= limit else s[:limit] + " ..."
+
+
+def _show(t, budget):
     """compact text of a lowered term, for comments and reports"""
+    if budget[0] <= 0:
+        return ".."
+    budget[0] -= 1
     k = t[0]
     if k in ("Img", "MaskE", "FalseC"):
         return k
     if k == "Const":
         return "Const<%s>" % t[1]
     if k in ("Erode", "ErodeP"):
-        return "%s %d (%s)" % (k, t[1], show(t[2]))
+        return "%s %d (%s)" % (k, t[1], _show(t[2], budget))
     if k in ("Pw", "Glob"):
-        return "%s %s [%s]" % (k, t[1], "; ".join(show(x) for x in t[2]))
+        return "%s %s [%s]" % (k, t[1], "; ".join(_show(x, budget) for x in t[2]))
     if k == "Loc":
-        return "Loc %d %s (%s)" % (t[1], t[2], show(t[3]))
+        return "Loc %d %s (%s)" % (t[1], t[2], _show(t[3], budget))
     if k == "Select":
-        return "Select (%s) (%s) (%s)" % (show(t[1]), show(t[2]), show(t[3]))
+        return "Select (%s) (%s) (%s)" % (_show(t[1], budget), _show(t[2], budget), _show(t[3], budget))
     if k == "MConv":
-        return "MConv %s (%s) (%s)" % (t[1], show(t[2]), show(t[3]))
+        return "MConv %s (%s) (%s)" % (t[1], _show(t[2], budget), _show(t[3], budget))
     return str(t)
